@@ -21,7 +21,7 @@ def run(chk, failed):
                 "with one comparison atom of the documented procedure placed at -1/0/+1 of its flip point, two-atom overlaps, "
                 "int64/uint64 extremes, nil-prefix windows; non-trivial = current lag > allowed lag (past the first exit); "
                 "distinct by the case line")
-    impl, model, mism = chk.differential("eval", "evaluator", "TestVerifProbeEval", cases, name="calc")
+    impl, model, mism = chk.differential("eval", "eval", "TestVerifProbeEval", cases, name="calc")
     for c, tg, a in zip(cases, tags, impl):
         f = c.split()
         if int(f[1]) > int(f[3]):
